@@ -63,6 +63,7 @@ func runHNSWHistory(r *rand.Rand, p hnswParams, o hnswOpts, t *Trace) *Case {
 	removed := map[uint32]bool{}
 	nextID := uint32(1)
 	var forced []float32 // query of the next search (the vector of a just-removed entry point)
+	flushFirst := false  // the next operation is an explicit Flush (then the forced search)
 	efDefault := 0       // > 0 once SetEfSearch has replaced the index's search-time ef
 	dump := func() {
 		st := comet.VerifHNSWSnapshot(idx)
@@ -85,6 +86,9 @@ func runHNSWHistory(r *rand.Rand, p hnswParams, o hnswOpts, t *Trace) *Case {
 		}
 		if forced != nil {
 			x = 99 // the search that follows the removal of a whole neighbourhood
+		}
+		if flushFirst {
+			x, flushFirst = 60, false // ... after an explicit Flush, when the upper layers were emptied
 		}
 		if r.Intn(25) == 0 {
 			// SetEfSearch: from now on a search that names no ef of its own uses this one
@@ -159,6 +163,33 @@ func runHNSWHistory(r *rand.Rand, p hnswParams, o hnswOpts, t *Trace) *Case {
 		case x < 56: // remove
 			var id uint32
 			st := comet.VerifHNSWSnapshot(idx)
+			if o.adversary && st.MaxLevel >= 1 && r.Intn(6) == 0 {
+				// the entry point and EVERY vertex above the bottom layer, then an explicit Flush (the new entry
+				// point has to be elected among vertices that only live on layer 0), then a search
+				for _, n := range st.Nodes {
+					if (n.Level > 0 || n.ID == st.EntryPoint) && !removed[n.ID] {
+						vid := n.ID
+						e := idx.Remove(*comet.NewVectorNodeWithID(vid, nil))
+						code := errCode(e)
+						ops = append(ops, func(c *Case) { c.N(2).U(uint64(vid)).N(code) })
+						if code == 0 {
+							removed[vid] = true
+						}
+					}
+				}
+				for _, lv := range resident {
+					if !removed[lv.id] {
+						forced = cloneVec(lv.raw)
+						break
+					}
+				}
+				if forced == nil && len(resident) > 0 {
+					forced = cloneVec(resident[0].raw)
+				}
+				flushFirst = true
+				t.Stat("hnsw.remove_all_upper_layers_then_flush")
+				continue
+			}
 			if o.adversary && len(st.Nodes) > 0 && r.Intn(6) == 0 {
 				// the entry point AND its whole bottom-layer neighbourhood (no flush), then a search right
 				// at the removed entry point: the walk must pass through the removed region to live vectors
